@@ -378,11 +378,19 @@ class Type2Tag(Tag):
         if self.ndef and self.ndef.is_writeable:
             memory = self.ndef._tag_memory
             offset = self.ndef._ndef_tlv_offset
-            memory[offset+1:offset+3] = b"\x00\xFE"
+            memory_size = memory[14] * 8 + 16
+            skip_bytes = self.ndef._skip_bytes
+            # Set the ndef message tlv length to zero and, if space
+            # permits, write a terminator tlv behind it (but not onto
+            # lock or reserved bytes).
+            memory[offset+1] = 0x00
+            offset += 2
+            while offset in skip_bytes:
+                offset += 1
+            if offset < memory_size:
+                memory[offset] = 0xFE
             if wipe is not None:
-                memory_size = memory[14] * 8 + 16
-                skip_bytes = self.ndef._skip_bytes
-                for offset in range(offset + 3, memory_size):
+                for offset in range(offset + 1, memory_size):
                     if offset not in skip_bytes:
                         memory[offset] = wipe & 0xFF
             memory.synchronize()
